@@ -45,9 +45,26 @@ Init == muts = <<>>
 Next == /\ Len(muts) < MaxMut
         /\ \E m \in Mutations : Applicable(m) /\ muts' = Append(muts, m)
 Spec == Init /\ [][Next]_muts
-\* for simulation: one random applicable mutation per step (TLC's simulator would otherwise build every successor of every step)
+\* for simulation: one random applicable mutation per step, drawn component by component (TLC's simulator would otherwise build every
+\* successor of every step, and even the set of applicable mutations is large for documents with hundreds of elements)
+Kinds == {"dropattr", "setattr", "dupattr", "dupelem", "dropelem", "swapelems", "truncate", "setversion", "cutat", "doctype", "retype"}
+RandMut ==
+  LET k == RandomElement(Kinds)
+      e == RandomElement(1..NElem)   e2 == RandomElement(2..NElem)   f2 == RandomElement(2..NElem)
+      a0 == RandomElement(1..9)   v == RandomElement(1..NVals)   w == RandomElement(1..4)
+      a == IF NAttr[e] = 0 THEN 0 ELSE ((a0 - 1) % NAttr[e]) + 1
+  IN CASE k \in {"dropattr", "dupattr"} /\ a > 0 -> <<k, e, a, 0>>
+       [] k = "setattr" /\ a > 0 -> <<k, e, a, v>>
+       [] k = "cutat" -> <<k, e, a, w>>
+       [] k = "dropelem" -> <<k, e2, 0, 0>>
+       [] k = "swapelems" /\ e2 # f2 -> <<k, IF e2 < f2 THEN e2 ELSE f2, IF e2 < f2 THEN f2 ELSE e2, 0>>
+       [] k = "truncate" -> <<k, RandomElement(1..15), 0, 0>>
+       [] k = "setversion" -> <<k, RandomElement(1..NVers), 0, 0>>
+       [] k = "doctype" -> <<k, RandomElement(1..NDoctypes), 0, 0>>
+       [] k = "retype" /\ ObjElems # {} -> <<k, RandomElement(ObjElems), RandomElement(1..NTemplates), 0>>
+       [] OTHER -> <<"dupelem", e2, 0, 0>>
 NextSim == /\ Len(muts) < MaxMut
-           /\ muts' = Append(muts, RandomElement({m \in Mutations : Applicable(m)}))
+           /\ muts' = Append(muts, RandMut)
 SpecSim == Init /\ [][NextSim]_muts
 
 \* every recipe addresses existing elements and attributes only
